@@ -392,7 +392,7 @@ def analyse(rep: Report) -> None:
             rep.fail('R08.8', construct, f'start={v}',
                      f'calculate_live_params resolves `{v}`, which the option parser does not accept', live)
     from .c19 import lift_into
-    lift_into(rep, 'R08.10', ('R19.2', 'R19.3', 'R19.5'), 'ISO date-time parser and formatter of the start option')
+    lift_into(rep, 'R08.10', ('R19.2', 'R19.3', 'R19.5', 'R19.7'), 'ISO date-time parser and formatter of the start option')
     missing = (symbolic | {'explicit'}) - seen_labels
     if missing:
         raise AnalysisError(f'no normal exit reached for start values {sorted(missing)}')
